@@ -22,10 +22,10 @@ import (
 func TestVerif_C37(t *testing.T) {
 	r := vrt.Begin(t, "C37", "model_checking")
 	defer r.End()
-	r.Rule("every scenario of the schedule-quantified checks (C13 worker pool, C18 HostClient pool, C12 limits, C15 shutdown, C16 timeout handler, C04/C38 clients, C17 hijack, C40 LBClient, C41 TCPDialer, C25 FS handles) re-explored under the Go race detector with " +
+	r.Rule("every scenario of the schedule-quantified checks (C13 worker pool, C18 HostClient pool, C12 limits, C15 shutdown, C16 timeout handler, C04/C38 clients, C17 hijack, C40 LBClient, C41 TCPDialer, C25 FS handles, C22 stackless queue and codec pools, Client/HostClient/Server monitor scenarios) re-explored under the Go race detector with " +
 		"scheduler hand-offs hidden (RaceDisable) and shim primitives annotated with their real happens-before edges; every schedule up to the preemption bound is executed; " +
 		"violation: a detector report whose two access stacks both have a repository (non-test) frame on top; non-trivial: executions with >=1 deviation")
-	r.Assume("exactness of the happens-before annotations (race litmus suite: 17 racy / race-free programs per primitive give exactly the expected verdicts)",
+	r.Assume("exactness of the happens-before annotations (race litmus suite: 19 racy / race-free programs per primitive give exactly the expected verdicts)",
 		"the detector's bounded shadow history (4 accesses per 8 bytes)", "handlers and harness code follow the RequestCtx retention rules; reports with a harness frame on top are counted, not judged")
 	if !mcrt.RaceOn {
 		r.ToolError("C37 must be built with -race (profile mcrace)")
